@@ -17,30 +17,37 @@ package codec
 // ------------------------------------------------------------------ raw big-endian helpers
 //
 //@ func bWriteU8
+//@   witness out = w.bytes
 //@   requires w != nil
 //@   modifies w.bytes
 //@   ensures [C02] err == nil && w.bytes == old(w.bytes) ++ [data]
 //@   safety [C02]
 //
 //@ func bWriteU16
+//@   witness out = w.bytes
 //@   requires w != nil
 //@   modifies w.bytes
 //@   ensures [C02] err == nil && w.bytes == old(w.bytes) ++ beEnc2(data)
 //@   safety [C02]
 //
 //@ func bWriteU32
+//@   witness out = w.bytes
 //@   requires w != nil
 //@   modifies w.bytes
 //@   ensures [C02] err == nil && w.bytes == old(w.bytes) ++ beEnc4(data)
 //@   safety [C02]
 //
 //@ func bWriteU64
+//@   witness out = w.bytes
 //@   requires w != nil
 //@   modifies w.bytes
 //@   ensures [C02] err == nil && w.bytes == old(w.bytes) ++ beEnc8(data)
 //@   safety [C02]
 //
 //@ func bReadU8
+//@   witness src = r.src
+//@   witness i = r.i
+//@   witness data0 = *data
 //@   requires r != nil && data != nil && r.i >= 0
 //@   modifies r.i, *data
 //@   ensures [C02,C06] old(r.i) < len(r.src) ==> (err == nil && *data == r.src[old(r.i)] && r.i == old(r.i) + 1)
@@ -49,6 +56,9 @@ package codec
 //@   safety [C05]
 //
 //@ func bReadU16
+//@   witness src = r.src
+//@   witness i = r.i
+//@   witness data0 = *data
 //@   requires r != nil && data != nil && r.i >= 0
 //@   modifies r.i, *data
 //@   ensures [C02,C06] old(r.i) + 2 <= len(r.src) ==> (err == nil && *data == beDec2(r.src[old(r.i) : old(r.i) + 2]) && r.i == old(r.i) + 2)
@@ -57,6 +67,9 @@ package codec
 //@   safety [C05]
 //
 //@ func bReadU32
+//@   witness src = r.src
+//@   witness i = r.i
+//@   witness data0 = *data
 //@   requires r != nil && data != nil && r.i >= 0
 //@   modifies r.i, *data
 //@   ensures [C02,C06] old(r.i) + 4 <= len(r.src) ==> (err == nil && *data == beDec4(r.src[old(r.i) : old(r.i) + 4]) && r.i == old(r.i) + 4)
@@ -65,6 +78,9 @@ package codec
 //@   safety [C05]
 //
 //@ func bReadU64
+//@   witness src = r.src
+//@   witness i = r.i
+//@   witness data0 = *data
 //@   requires r != nil && data != nil && r.i >= 0
 //@   modifies r.i, *data
 //@   ensures [C02,C06] old(r.i) + 8 <= len(r.src) ==> (err == nil && *data == beDec8(r.src[old(r.i) : old(r.i) + 8]) && r.i == old(r.i) + 8)
@@ -75,90 +91,105 @@ package codec
 // ------------------------------------------------------------------ writers (C02: bytes == wire format)
 //
 //@ func (*Buffer).WriteHead
+//@   witness out = b.buf.bytes
 //@   requires validB(b) && ty < 16
 //@   modifies b.buf.bytes
 //@   ensures [C02,C03] err == nil && b.buf.bytes == old(b.buf.bytes) ++ head(ty, tag)
 //@   safety [C02]
 //
 //@ func (*Buffer).WriteInt8
+//@   witness out = b.buf.bytes
 //@   requires validB(b)
 //@   modifies b.buf.bytes
 //@   ensures [C02,C03] err == nil && b.buf.bytes == old(b.buf.bytes) ++ encInt8(tag, data)
 //@   safety [C02]
 //
 //@ func (*Buffer).WriteInt16
+//@   witness out = b.buf.bytes
 //@   requires validB(b)
 //@   modifies b.buf.bytes
 //@   ensures [C02,C03] err == nil && b.buf.bytes == old(b.buf.bytes) ++ encInt16(tag, data)
 //@   safety [C02]
 //
 //@ func (*Buffer).WriteInt32
+//@   witness out = b.buf.bytes
 //@   requires validB(b)
 //@   modifies b.buf.bytes
 //@   ensures [C02,C03] err == nil && b.buf.bytes == old(b.buf.bytes) ++ encInt32(tag, data)
 //@   safety [C02]
 //
 //@ func (*Buffer).WriteInt64
+//@   witness out = b.buf.bytes
 //@   requires validB(b)
 //@   modifies b.buf.bytes
 //@   ensures [C02,C03] err == nil && b.buf.bytes == old(b.buf.bytes) ++ encInt64(tag, data)
 //@   safety [C02]
 //
 //@ func (*Buffer).WriteUint8
+//@   witness out = b.buf.bytes
 //@   requires validB(b)
 //@   modifies b.buf.bytes
 //@   ensures [C02,C03] err == nil && b.buf.bytes == old(b.buf.bytes) ++ encInt16(tag, data)
 //@   safety [C02]
 //
 //@ func (*Buffer).WriteUint16
+//@   witness out = b.buf.bytes
 //@   requires validB(b)
 //@   modifies b.buf.bytes
 //@   ensures [C02,C03] err == nil && b.buf.bytes == old(b.buf.bytes) ++ encInt32(tag, data)
 //@   safety [C02]
 //
 //@ func (*Buffer).WriteUint32
+//@   witness out = b.buf.bytes
 //@   requires validB(b)
 //@   modifies b.buf.bytes
 //@   ensures [C02,C03] err == nil && b.buf.bytes == old(b.buf.bytes) ++ encInt64(tag, data)
 //@   safety [C02]
 //
 //@ func (*Buffer).WriteBool
+//@   witness out = b.buf.bytes
 //@   requires validB(b)
 //@   modifies b.buf.bytes
 //@   ensures [C02,C03] err == nil && b.buf.bytes == old(b.buf.bytes) ++ encBool(tag, data)
 //@   safety [C02]
 //
 //@ func (*Buffer).WriteFloat32
+//@   witness out = b.buf.bytes
 //@   requires validB(b)
 //@   modifies b.buf.bytes
 //@   ensures [C02,C03] err == nil && b.buf.bytes == old(b.buf.bytes) ++ encF32(tag, data)
 //@   safety [C02]
 //
 //@ func (*Buffer).WriteFloat64
+//@   witness out = b.buf.bytes
 //@   requires validB(b)
 //@   modifies b.buf.bytes
 //@   ensures [C02,C03] err == nil && b.buf.bytes == old(b.buf.bytes) ++ encF64(tag, data)
 //@   safety [C02]
 //
 //@ func (*Buffer).WriteString
+//@   witness out = b.buf.bytes
 //@   requires validB(b) && len(data) < 4294967296
 //@   modifies b.buf.bytes
 //@   ensures [C02,C03] err == nil && b.buf.bytes == old(b.buf.bytes) ++ encString(tag, data)
 //@   safety [C02]
 //
 //@ func (*Buffer).WriteSliceUint8
+//@   witness out = b.buf.bytes
 //@   requires validB(b)
 //@   modifies b.buf.bytes
 //@   ensures [C03] err == nil && b.buf.bytes == old(b.buf.bytes) ++ data
 //@   safety [C03]
 //
 //@ func (*Buffer).WriteSliceInt8
+//@   witness out = b.buf.bytes
 //@   requires validB(b)
 //@   modifies b.buf.bytes
 //@   ensures [C03] err == nil && b.buf.bytes == old(b.buf.bytes) ++ data
 //@   safety [C03]
 //
 //@ func (*Buffer).WriteBytes
+//@   witness out = b.buf.bytes
 //@   requires validB(b)
 //@   modifies b.buf.bytes
 //@   ensures [C03] err == nil && b.buf.bytes == old(b.buf.bytes) ++ data
@@ -167,6 +198,8 @@ package codec
 // ------------------------------------------------------------------ reader: heads, cursor, skipping (C04)
 //
 //@ func (*Reader).readHead
+//@   witness src = b.buf.src
+//@   witness i = b.buf.i
 //@   requires validR(b)
 //@   let src = b.buf.src
 //@   let i0 = b.buf.i
@@ -177,12 +210,16 @@ package codec
 //@   safety [C05]
 //
 //@ func (*Reader).unreadHead
+//@   witness src = b.buf.src
+//@   witness i = b.buf.i
 //@   requires validR(b) && b.buf.i >= headLen(curTag)
 //@   modifies b.buf.i
 //@   ensures [C04] b.buf.i == old(b.buf.i) - headLen(curTag)
 //@   safety [C05]
 //
 //@ func (*Reader).Skip
+//@   witness src = b.buf.src
+//@   witness i = b.buf.i
 //@   requires validR(b)
 //@   modifies b.buf.i
 //@   ensures [C04] n <= 0 ==> b.buf.i == old(b.buf.i)
@@ -190,6 +227,8 @@ package codec
 //@   safety [C05]
 //
 //@ func (*Reader).Next
+//@   witness src = b.buf.src
+//@   witness i = b.buf.i
 //@   requires validR(b)
 //@   let src = b.buf.src
 //@   let i0 = b.buf.i
@@ -201,6 +240,8 @@ package codec
 //@   safety [C05]
 //
 //@ func (*Reader).skipField
+//@   witness src = b.buf.src
+//@   witness i = b.buf.i
 //@   requires validR(b)
 //@   let src = b.buf.src
 //@   let i0 = b.buf.i
@@ -211,6 +252,8 @@ package codec
 //@   safety [C05]
 //
 //@ func (*Reader).skipFieldList
+//@   witness src = b.buf.src
+//@   witness i = b.buf.i
 //@   requires validR(b)
 //@   let src = b.buf.src
 //@   let i0 = b.buf.i
@@ -224,6 +267,8 @@ package codec
 //@   safety [C05]
 //
 //@ func (*Reader).skipFieldMap
+//@   witness src = b.buf.src
+//@   witness i = b.buf.i
 //@   requires validR(b)
 //@   let src = b.buf.src
 //@   let i0 = b.buf.i
@@ -237,6 +282,8 @@ package codec
 //@   safety [C05]
 //
 //@ func (*Reader).skipFieldSimpleList
+//@   witness src = b.buf.src
+//@   witness i = b.buf.i
 //@   requires validR(b)
 //@   let src = b.buf.src
 //@   let i0 = b.buf.i
@@ -247,6 +294,8 @@ package codec
 //@   safety [C05]
 //
 //@ func (*Reader).SkipToStructEnd
+//@   witness src = b.buf.src
+//@   witness i = b.buf.i
 //@   requires validR(b)
 //@   let src = b.buf.src
 //@   let i0 = b.buf.i
@@ -260,6 +309,8 @@ package codec
 //@   safety [C05]
 //
 //@ func (*Reader).SkipToNoCheck
+//@   witness src = b.buf.src
+//@   witness i = b.buf.i
 //@   requires validR(b)
 //@   let src = b.buf.src
 //@   let i0 = b.buf.i
@@ -276,6 +327,8 @@ package codec
 //@   safety [C05]
 //
 //@ func (*Reader).SkipTo
+//@   witness src = b.buf.src
+//@   witness i = b.buf.i
 //@   requires validR(b)
 //@   let src = b.buf.src
 //@   let i0 = b.buf.i
@@ -290,6 +343,9 @@ package codec
 // ------------------------------------------------------------------ readers of primitives (C02, C06; strict reference decoder)
 //
 //@ func (*Reader).ReadInt8
+//@   witness src = b.buf.src
+//@   witness i = b.buf.i
+//@   witness data0 = *data
 //@   requires validR(b) && data != nil
 //@   let src = b.buf.src
 //@   let i0 = b.buf.i
@@ -303,6 +359,9 @@ package codec
 //@   safety [C05]
 //
 //@ func (*Reader).ReadInt16
+//@   witness src = b.buf.src
+//@   witness i = b.buf.i
+//@   witness data0 = *data
 //@   requires validR(b) && data != nil
 //@   let src = b.buf.src
 //@   let i0 = b.buf.i
@@ -316,6 +375,9 @@ package codec
 //@   safety [C05]
 //
 //@ func (*Reader).ReadInt32
+//@   witness src = b.buf.src
+//@   witness i = b.buf.i
+//@   witness data0 = *data
 //@   requires validR(b) && data != nil
 //@   let src = b.buf.src
 //@   let i0 = b.buf.i
@@ -329,6 +391,9 @@ package codec
 //@   safety [C05]
 //
 //@ func (*Reader).ReadInt64
+//@   witness src = b.buf.src
+//@   witness i = b.buf.i
+//@   witness data0 = *data
 //@   requires validR(b) && data != nil
 //@   let src = b.buf.src
 //@   let i0 = b.buf.i
@@ -342,6 +407,9 @@ package codec
 //@   safety [C05]
 //
 //@ func (*Reader).ReadUint8
+//@   witness src = b.buf.src
+//@   witness i = b.buf.i
+//@   witness data0 = *data
 //@   requires validR(b) && data != nil
 //@   let src = b.buf.src
 //@   let i0 = b.buf.i
@@ -353,6 +421,9 @@ package codec
 //@   safety [C05]
 //
 //@ func (*Reader).ReadUint16
+//@   witness src = b.buf.src
+//@   witness i = b.buf.i
+//@   witness data0 = *data
 //@   requires validR(b) && data != nil
 //@   let src = b.buf.src
 //@   let i0 = b.buf.i
@@ -364,6 +435,9 @@ package codec
 //@   safety [C05]
 //
 //@ func (*Reader).ReadUint32
+//@   witness src = b.buf.src
+//@   witness i = b.buf.i
+//@   witness data0 = *data
 //@   requires validR(b) && data != nil
 //@   let src = b.buf.src
 //@   let i0 = b.buf.i
@@ -375,6 +449,9 @@ package codec
 //@   safety [C05]
 //
 //@ func (*Reader).ReadBool
+//@   witness src = b.buf.src
+//@   witness i = b.buf.i
+//@   witness data0 = *data
 //@   requires validR(b) && data != nil
 //@   let src = b.buf.src
 //@   let i0 = b.buf.i
@@ -386,6 +463,9 @@ package codec
 //@   safety [C05]
 //
 //@ func (*Reader).ReadFloat32
+//@   witness src = b.buf.src
+//@   witness i = b.buf.i
+//@   witness data0 = *data
 //@   requires validR(b) && data != nil
 //@   let src = b.buf.src
 //@   let i0 = b.buf.i
@@ -397,6 +477,9 @@ package codec
 //@   safety [C05]
 //
 //@ func (*Reader).ReadFloat64
+//@   witness src = b.buf.src
+//@   witness i = b.buf.i
+//@   witness data0 = *data
 //@   requires validR(b) && data != nil
 //@   let src = b.buf.src
 //@   let i0 = b.buf.i
@@ -408,6 +491,9 @@ package codec
 //@   safety [C05]
 //
 //@ func (*Reader).ReadString
+//@   witness src = b.buf.src
+//@   witness i = b.buf.i
+//@   witness data0 = *data
 //@   requires validR(b) && data != nil
 //@   let src = b.buf.src
 //@   let i0 = b.buf.i
@@ -421,6 +507,8 @@ package codec
 // ------------------------------------------------------------------ raw byte-vector readers (C05, C06)
 //
 //@ func (*Reader).ReadSliceInt8
+//@   witness src = b.buf.src
+//@   witness i = b.buf.i
 //@   requires validR(b) && data != nil
 //@   let src = b.buf.src
 //@   let i0 = b.buf.i
@@ -434,6 +522,8 @@ package codec
 //@   safety [C05]
 //
 //@ func (*Reader).ReadSliceUint8
+//@   witness src = b.buf.src
+//@   witness i = b.buf.i
 //@   requires validR(b) && data != nil
 //@   let src = b.buf.src
 //@   let i0 = b.buf.i
@@ -447,6 +537,8 @@ package codec
 //@   safety [C05]
 //
 //@ func (*Reader).ReadBytes
+//@   witness src = b.buf.src
+//@   witness i = b.buf.i
 //@   requires validR(b) && data != nil
 //@   let src = b.buf.src
 //@   let i0 = b.buf.i
@@ -470,24 +562,29 @@ package codec
 //@   safety [C05]
 //
 //@ func (*Reader).Reset
+//@   witness src = b.buf.src
+//@   witness i = b.buf.i
 //@   requires b != nil && b.buf != nil
 //@   modifies b.buf.i, b.buf.src, b.ref
 //@   ensures [C02,C05] validR(b) && b.buf.src == data && b.buf.i == 0
 //@   safety [C05]
 //
 //@ func (*Buffer).ToBytes
+//@   witness out = b.buf.bytes
 //@   requires validB(b)
 //@   pure
 //@   ensures [C02,C03] result == b.buf.bytes
 //@   safety [C02]
 //
 //@ func (*Buffer).Len
+//@   witness out = b.buf.bytes
 //@   requires validB(b)
 //@   pure
 //@   ensures [C02,C03] result == len(b.buf.bytes)
 //@   safety [C02]
 //
 //@ func (*Buffer).Reset
+//@   witness out = b.buf.bytes
 //@   requires validB(b)
 //@   modifies b.buf.bytes
 //@   ensures [C02,C03] len(b.buf.bytes) == 0
